@@ -75,7 +75,7 @@ def run(ctx):
     wd = os.path.join(BUILD, "run-%s-full-%d" % (ctx.pid, os.getpid()))
     shutil.rmtree(wd, ignore_errors=True)
     os.makedirs(wd)
-    n_hist = 600 if quick else 20000
+    n_hist = 420 if quick else 12000
     t0 = time.time()
     hist, verdicts, _ = _run_histories(ctx, h, drv, wd, "main", 0, n_hist)
     t_run = time.time() - t0
@@ -169,8 +169,8 @@ def run(ctx):
         "status_transitions_seen": len(trans),
         "most_frequent_status_transitions": ["%s->%s:%d" % (a, b, n) for (a, b), n in trans.most_common(12)],
         "rule": "three polyhedra per history (C or NNC, dimension 0-3, results up to 4-5), each built in one of 7 lazy states; 4-10 "
-                "public calls drawn from 30 (is_empty, constraints, generators, minimized_*, contains, ==, relation_with(g), bounds, "
-                "max/min, add_constraint, refine_with_constraint, add_generator, affine_(pre)image, generalized_affine_image (<= = >=), "
+                "public calls drawn from 31 (is_empty, constraints, generators, minimized_*, contains, ==, relation_with(g), bounds, "
+                "max/min, add_constraint, refine_with_constraint, add_generator, affine_(pre)image, generalized_affine_image (all relation symbols), bounded_affine_image, "
                 "add_space_dimensions_*, remove_(higher_)space_dimensions, unconstrain, topological_closure_assign, intersection, "
                 "poly_hull, time_elapse, concatenate, copy, expand_space_dimension, fold_space_dimensions, map_space_dimensions "
                 "(permutations and empty codomain)); a receiver already marked empty is taken less often; identical = dimension, 9 status flags, rows IN ORDER with "
@@ -181,7 +181,7 @@ def run(ctx):
     ctx.assumptions += [
         "full Polyhedron model: stale members (a system or matrix whose status flag is off) are not compared; the MIP_Problem "
         "call inside strongly_minimize_constraints is replaced by K1's supB on the same system; exceptions end a history; NOT in "
-        "the model: the strict relation symbols of generalized_affine_image, bounded_affine_image, poly_difference_assign, "
+        "the model: poly_difference_assign, "
         "simplify_using_context_assign, the system-valued add_constraints / add_generators / refine_with_constraints, "
         "relation_with(Constraint), the general (non-permutation) case of map_space_dimensions",
         "full Polyhedron model, theorems (Props/C01Full.lean): the conversion contract ConvContract is a hypothesis (its clauses "
